@@ -178,6 +178,8 @@ impl FilesystemStore {
     }
 
     fn get_file_mutex(&self, key: &StoreKey) -> Arc<RwLock<()>> {
+        #[cfg(zarrs_verif)]
+        zarrs_storage::verif_hooks::emit("fs.mutex", &[]);
         let mut files = self.files.lock().unwrap();
         let file = files
             .entry(key.clone())
@@ -195,6 +197,8 @@ impl FilesystemStore {
         truncate: bool,
     ) -> Result<(), StorageError> {
         let file = self.get_file_mutex(key);
+        #[cfg(zarrs_verif)]
+        zarrs_storage::verif_hooks::emit("fs.set.lock", &[]);
         let _lock = file.write();
 
         // Create directories
@@ -256,6 +260,8 @@ impl ReadableStorageTraits for FilesystemStore {
         byte_ranges: &[ByteRange],
     ) -> Result<Option<Vec<Bytes>>, StorageError> {
         let file = self.get_file_mutex(key);
+        #[cfg(zarrs_verif)]
+        zarrs_storage::verif_hooks::emit("fs.get.lock", &[]);
         let _lock = file.read();
 
         let mut file = match File::open(self.key_to_fspath(key)) {
@@ -301,6 +307,8 @@ impl ReadableStorageTraits for FilesystemStore {
     }
 
     fn size_key(&self, key: &StoreKey) -> Result<Option<u64>, StorageError> {
+        #[cfg(zarrs_verif)]
+        zarrs_storage::verif_hooks::emit("fs.size", &[]);
         let key_path = self.key_to_fspath(key);
         std::fs::metadata(key_path).map_or_else(|_| Ok(None), |metadata| Ok(Some(metadata.len())))
     }
@@ -332,6 +340,8 @@ impl WritableStorageTraits for FilesystemStore {
         }
 
         let file = self.get_file_mutex(key);
+        #[cfg(zarrs_verif)]
+        zarrs_storage::verif_hooks::emit("fs.erase.lock", &[]);
         let _lock = file.write();
 
         let key_path = self.key_to_fspath(key);
